@@ -36,7 +36,7 @@ func c17PosSizes(tier string) (parseUnits, valUnits, per int) {
 	if tier == "thorough" {
 		return 600, 1500, 40
 	}
-	return 48, 96, 16
+	return 192, 384, 16
 }
 
 var c17FaultBytes = []byte{'?', 'x', '}', ']', ',', ':', '"', '{', '[', '0', '-', '.', 'e', ' ', '\n', 0x01, 0x7f, 't', 'n', '\\'}
